@@ -1,4 +1,8 @@
+#[cfg(fast_qr_verif)]
 fn main() {
     std::panic::set_hook(Box::new(|_| {}));
     fast_qr::verif_replay::main();
 }
+
+#[cfg(not(fast_qr_verif))]
+fn main() {}
